@@ -150,14 +150,20 @@ func parseInfo(line string) *Ev {
 
 // stopWriter closes stop when an info line of the given depth passes
 type stopWriter struct {
-	buf  bytes.Buffer
-	stop chan struct{}
-	at   string
-	once sync.Once
+	buf   bytes.Buffer
+	stop  chan struct{}
+	at    string
+	once  sync.Once
+	hit   chan time.Time
+	hitAt string
+	once2 sync.Once
 }
 
 func (w *stopWriter) Write(p []byte) (int, error) {
 	w.buf.Write(p)
+	if w.hitAt != "" && strings.HasPrefix(string(p), w.hitAt) {
+		w.once2.Do(func() { w.hit <- time.Now() })
+	}
 	if w.at != "" && strings.HasPrefix(string(p), w.at) {
 		w.once.Do(func() { close(w.stop) })
 	}
@@ -168,6 +174,7 @@ type request struct {
 	depth, hard, soft int
 	stop              string // "none", "pre", "depthN"
 	softTime          int64  // milliseconds, 0 = none (wall-clock dependent: used for C06/C07 only)
+	ponderHit         string // "" = not pondering, "never", "depthN": ponderhit arrives when the depth-N line passes
 }
 
 // one search on engine s; emits go / info* / ret
@@ -195,6 +202,14 @@ func (r *rec) search(s *search.Search, eng int, fen string, prefix []move.Move, 
 	}
 	if rq.softTime > 0 {
 		opts = append(opts, search.WithSoftTime(rq.softTime))
+	}
+	if rq.ponderHit != "" {
+		// a ponder search: limits are ignored until the hit arrives (channel of capacity 1, as the driver makes it)
+		w.hit = make(chan time.Time, 1)
+		if strings.HasPrefix(rq.ponderHit, "depth") {
+			w.hitAt = "info depth " + rq.ponderHit[5:] + " "
+		}
+		opts = append(opts, search.WithPonderHit(w.hit))
 	}
 	score, m, p := s.Go(b, opts...)
 	after := snap(b)
@@ -350,6 +365,16 @@ func (r *rec) sweep(corpus []string, K int) {
 					rq.softTime = int64(1 + r.rng.Intn(4))
 					rq.depth = 40
 					rq.hard = 200000
+				case 5:
+					// pondering: depth and node limits wait for the ponderhit; a stop ends it in any case
+					d1 := r.rng.Intn(4)
+					rq.depth = 1 + r.rng.Intn(3)
+					rq.hard = r.rng.Intn(3000)
+					rq.ponderHit = fmt.Sprintf("depth%d", d1)
+					if r.rng.Intn(3) == 0 {
+						rq.ponderHit = "never"
+					}
+					rq.stop = fmt.Sprintf("depth%d", d1+1+r.rng.Intn(3))
 				case 7:
 					// as deep as the engine goes: the ply limit of the search tree and of the pv buffer
 					rq.depth = 64
